@@ -2,6 +2,7 @@ import CLModel.Proto
 import CLModel.Parser.Formats
 import CLModel.Parser.Fluent
 import CLModel.Parser.C01Sess
+import CLModel.Parser.C01Gen
 namespace Ops.C01
 open Proto P
 
@@ -126,7 +127,48 @@ def opFluentC (toks : List String) : String :=
     | _, _ => "bad-args"
   | _ => "bad-args"
 
+/-! ### round 5: generator objects of one parser object -/
+
+def parseGenOps : List String → Option (List C01M.Op)
+  | [] => some []
+  | "R" :: t :: rest => do
+    let t ← parseText t
+    let r ← parseGenOps rest
+    pure (.read t.toArray :: r)
+  | "G" :: l :: rest => do
+    let r ← parseGenOps rest
+    pure (.mk (l == "1") :: r)
+  | "N" :: g :: k :: rest => do
+    let g ← parseNat g
+    let k ← parseNat k
+    let r ← parseGenOps rest
+    pure (.next g k :: r)
+  | "D" :: g :: rest => do
+    let g ← parseNat g
+    let r ← parseGenOps rest
+    pure (.drain g :: r)
+  | "X" :: g :: rest => do
+    let g ← parseNat g
+    let r ← parseGenOps rest
+    pure (.close g :: r)
+  | _ => none
+
+def showOut (o : C01M.Out) : String :=
+  match o with
+  | .part es => " | ".intercalate ("part" :: es.map showEntry)
+  | .full r => showWalk r
+
+/-- c01.gen <fmt> (R <text> | G <0|1> | N <g> <k> | D <g> | X <g>)* :
+    what the consuming operations (N, D) of a history on one parser object show, in order -/
+def opGen (toks : List String) : String :=
+  match toks with
+  | f :: cmds =>
+    match parseFmt f, parseGenOps cmds with
+    | some f, some cmds => " || ".intercalate ((C01M.runG f {} cmds).map showOut)
+    | _, _ => "bad-args"
+  | _ => "bad-args"
+
 def ops : List (String × (List String → String)) :=
   [("parse", opParse false), ("parse.loc", opParse true), ("fluentwalk", opFluent), ("po.strings", opPoStrings),
-   ("c01.sess", opSess), ("c01.fluentc", opFluentC)]
+   ("c01.sess", opSess), ("c01.fluentc", opFluentC), ("c01.gen", opGen)]
 end Ops.C01
